@@ -514,6 +514,7 @@ func (obj *DenseReal32VectorJointIterator) Ok() bool {
          !(obj.s2 == nil || obj.s2.GetFloat32() == 0.0)
 }
 func (obj *DenseReal32VectorJointIterator) Next() {
+next:
   ok1 := obj.it1.Ok()
   ok2 := obj.it2.Ok()
   obj.s1 = nil
@@ -532,6 +533,8 @@ func (obj *DenseReal32VectorJointIterator) Next() {
       obj.s2 = obj.it2.GetConst()
     }
   }
+  // true if at least one iterator is advanced below
+  advanced := obj.s1 != nil || obj.s2 != nil
   if obj.s1 != nil {
     obj.it1.Next()
   }
@@ -539,6 +542,11 @@ func (obj *DenseReal32VectorJointIterator) Next() {
     obj.it2.Next()
   } else {
     obj.s2 = ConstFloat32(0.0)
+  }
+  // skip positions where all elements are zero, stop only when
+  // all iterators are exhausted
+  if !obj.Ok() && advanced {
+    goto next
   }
 }
 func (obj *DenseReal32VectorJointIterator) GetConst() (ConstScalar, ConstScalar) {
